@@ -75,7 +75,7 @@ def repo_hash(repo=None):
     return _hash_tree([os.path.join(repo, d) for d in ("src", "include", "external")])
 
 
-CXXFLAGS_SAN = ["-std=c++17", "-O1", "-g1", "-fsanitize=address,undefined", "-fno-sanitize-recover=all", "-fno-sanitize=alignment",
+CXXFLAGS_SAN = ["-std=c++17", "-O1", "-g1", "-fsanitize=address,undefined", "-fno-sanitize-recover=all", "-fno-sanitize=alignment,bool,enum",
                 "-fno-omit-frame-pointer", "-D" + GUARD, "-w"]
 CXXFLAGS_FAST = ["-std=c++17", "-O2", "-g0", "-D" + GUARD, "-w"]
 
